@@ -53,7 +53,7 @@ CHECKS = {
  'C04': dict(
     category='proof',
     text='The row invariant (equal lengths, times[0]=tmin, non-decreasing, < tmax, counts >= 0 summing to N, consecutive rows differ by one legal move) '
-         'is a conjunct of the proved loop invariants of Gillespie_SIR/SIS and of the global event-loop invariant of fast_nonMarkov_SIR '
+         'is a conjunct of the proved loop invariants of Gillespie_SIR/SIS and of the global event-loop invariants of fast_nonMarkov_SIR and fast_SIS '
          '(queue rule), and implies the postcondition over the returned, trimmed arrays, for all graphs/rates/horizons/initial sets. '
          'Crash-freedom obligations (expovariate rate > 0, index/key safety, definite assignment) are discharged on the same paths. '
          'Other simulators are listed as not covered.',
@@ -64,7 +64,7 @@ CHECKS = {
     category='proof',
     text='Row 0 = (N-k-r0, k, r0) with k = len(collection) | 1 (single node) | int(round(N*rho)) (site obligation on random.sample: that many '
          'distinct nodes of G), initially recovered nodes stay recovered, EoNError exactly when rho and initial_infecteds are both given '
-         '(is-not-None semantics), for Gillespie_SIR, Gillespie_SIS, fast_nonMarkov_SIR, fast_SIR; every internal call site of simulation.py '
+         '(is-not-None semantics), for Gillespie_SIR, Gillespie_SIS, fast_nonMarkov_SIR, fast_SIR, fast_SIS; every internal call site of simulation.py '
          'binds its wrapper parameters to the callee parameters of the same name (delegation-binding analysis, all inputs).',
     design_ref='DESIGN.md section 5 "C05", 3.2',
     note='As C01; binding schema restricted to the named forwarding parameters. Prefixes of fast_SIS/fast_nonMarkov_SIS/discrete simulators: binding only.',
